@@ -95,13 +95,16 @@ func oneRetry(line string) string {
 		return resp, err
 	})
 	var sb strings.Builder
-	func() {
+	rt := middleware.RetryMiddleware(n, delay)(base)
+	one := func(suffix string) {
 		defer func() {
 			if r := recover(); r != nil {
-				fmt.Fprintf(&sb, "%s impl panic %v\n", id, r)
+				fmt.Fprintf(&sb, "%s impl panic%s %v\n", id, suffix, r)
 			}
 		}()
-		rt := middleware.RetryMiddleware(n, delay)(base)
+		// a fresh request through the SAME middleware instance: the script starts over
+		trace = nil
+		calls = 0
 		req, _ := http.NewRequest("GET", "http://example.invalid/x", nil)
 		resp, err := rt.RoundTrip(req)
 		rs, es := "nil", "nil"
@@ -133,11 +136,15 @@ func oneRetry(line string) string {
 				bs = "foreign-body"
 			}
 		}
-		fmt.Fprintf(&sb, "%s impl body %s\n", id, bs)
-		fmt.Fprintf(&sb, "%s impl calls %d\n", id, calls)
-		fmt.Fprintf(&sb, "%s impl ret resp=%s err=%s\n", id, rs, es)
-		fmt.Fprintf(&sb, "%s impl trace %s\n", id, strings.Join(trace, " "))
-	}()
+		fmt.Fprintf(&sb, "%s impl body%s %s\n", id, suffix, bs)
+		fmt.Fprintf(&sb, "%s impl calls%s %d\n", id, suffix, calls)
+		fmt.Fprintf(&sb, "%s impl ret%s resp=%s err=%s\n", id, suffix, rs, es)
+		fmt.Fprintf(&sb, "%s impl trace%s %s\n", id, suffix, strings.Join(trace, " "))
+	}
+	one("")
+	// the middleware keeps no state between requests: a second and third request behave like the first
+	one("2")
+	one("3")
 	return sb.String()
 }
 
